@@ -71,7 +71,6 @@ Section StepProofs.
   Variable D : query -> bool.
   Hypothesis Hpure : reads_pure istate gid wreq query elem err inner_step.
   Hypothesis Hkey : key_respected istate gid wreq query elem err K is_exist key inner_step D.
-  Hypothesis Herr : err_empty istate gid wreq query elem err inner_step D.
 
   Notation handle := (@handle gid elem K).
   Notation thread := (@thread wreq query elem err).
